@@ -283,6 +283,9 @@ async fn dial_happy_eyeballs(
             let addr = SocketAddr::new(ip, port);
             dials.push(
                 async move {
+                    // verification seam: `TcpStream::connect` below resolves to the harness connector
+                    #[cfg(iroh_verif)]
+                    use crate::verif::c15::VerifTcpStream as TcpStream;
                     trace!("connecting TCP stream");
                     let stream = time::timeout(DIAL_ENDPOINT_TIMEOUT, TcpStream::connect(addr))
                         .await
@@ -360,6 +363,16 @@ fn pop_family(addrs: &mut VecDeque<IpAddr>, next_is_v6: &mut bool) -> Option<IpA
     let addr = addrs.remove(idx)?;
     *next_is_v6 = !*next_is_v6;
     Some(addr)
+}
+
+/// Verification entry point to the private [`dial_happy_eyeballs`].
+#[cfg(iroh_verif)]
+pub(crate) async fn verif_dial_happy_eyeballs(
+    dns_resolver: &DnsResolver,
+    url: &Url,
+    prefer_ipv6: bool,
+) -> Result<TcpStream, DialError> {
+    dial_happy_eyeballs(dns_resolver, url, prefer_ipv6).await
 }
 
 fn url_port(url: &Url) -> Option<u16> {
